@@ -111,13 +111,18 @@ theorem stable_eq {μ : ℝ} (hμ : 0 < μ) (anchor n : ℕ) (ε : ℝ) : delta1
 
 /-! ### negative-binomial N-test -/
 
+/-- the parameters the code formed before fix D47 (`upsilon = 1 − (var − mean)/var`) are the same real numbers -/
+theorem nbd_params_old_eq (mean var : ℝ) (hv : var ≠ 0) : nbdParamsOld mean var = nbdParams mean var := by
+  simp only [nbdParamsOld, nbdParams, RealOps.real_div, RealOps.real_mul, RealOps.real_sub, RealOps.real_one]
+  congr 1
+  field_simp; ring
+
 /-- the code's parameters are p = mean/var and r = mean²/(var − mean) -/
 theorem nbd_params (mean var : ℝ) (hv : var ≠ 0) :
     nbdParams mean var = (mean ^ 2 / (var - mean), mean / var) := by
-  simp only [nbdParams, RealOps.real_div, RealOps.real_mul, RealOps.real_sub, RealOps.real_one]
+  simp only [nbdParams, RealOps.real_div, RealOps.real_mul, RealOps.real_sub]
   congr 1
-  · ring
-  · field_simp; ring
+  ring
 
 /-- with these parameters the negative-binomial mean r(1−p)/p is the forecast mean -/
 theorem nbd_mean {mean var : ℝ} (hm : 0 < mean) (hv : mean < var) :
